@@ -89,7 +89,33 @@ def lzw_encode(data, rnd=None, clear_p=0.002):
     if w:
         codes.append(tbl[w])
     codes.append(257)
-    # pack with decoder-synchronous code widths (the decoder's table lags one entry behind)
+    return lzw_pack(codes)
+
+
+def lzw_codes(data):
+    """Plain LZW code sequence (clear, codes..., EOD) for data (no extra clears)."""
+    codes = [256]
+    tbl = {bytes([i]): i for i in range(256)}
+    nxt = 258
+    w = b""
+    for byte in data:
+        c = bytes([byte])
+        if w + c in tbl:
+            w += c
+            continue
+        codes.append(tbl[w])
+        if nxt < 4094:
+            tbl[w + c] = nxt
+            nxt += 1
+        w = c
+    if w:
+        codes.append(tbl[w])
+    codes.append(257)
+    return codes
+
+
+def lzw_pack(codes):
+    """Pack codes MSB first with decoder-synchronous widths (the decoder's table lags one entry behind)."""
     acc = 0
     nacc = 0
     out = bytearray()
